@@ -1,7 +1,7 @@
 import Gv.Oracle.Cli
 import Gv.Model.Pssm
 /-!
-Command-line glue of `goalign compute pssm [-l] [-c pseudo] [-n norm]` (cmd/pssm.go, C14) against the model of
+Command-line glue of `goalign stats` (the summary, see `statsSummary`) and of `goalign compute pssm [-l] [-c pseudo] [-n norm]` (cmd/pssm.go, C14) against the model of
 `Pssm` (`Model/Pssm.lean`, evaluated at `Float`) and the printing code `printPSSM`: a header line with the
 alphabet characters (the reader's alphabet: the 20 amino acids, else `A C G T`), then one line per site, `site+1`
 and every cell as `%.3f`, tab separated (the driver shows a tab as a blank).
@@ -101,8 +101,30 @@ def pssmVerdict (rows : Rows) (fl : List String) (impl : String) : Option Ans :=
         | [] => false)
     some ⟨if okk then impl else want, verdictOf okk "pssm-table-differs-from-library-model"⟩
 
+/-- `goalign stats` without sub-command and without flags (cmd/stats.go): length, number of sequences, average
+number of alleles per site (`%.4f`), number of variable sites, the character table (`printCharStats(al, "*")`: sorted
+upper-cased characters, count, frequency as `%f`), the alphabet.  Every number is a count or the `float64` quotient
+of two counts: the bytes are exact. -/
+def statsSummary (rows : Rows) : Option String := do
+  let L := lenOf rows
+  if L < 0 || rows.any (fun r => (r.2.length : Int) != L) || (rows.map Prod.fst).eraseDups.length != rows.length then none
+  if rows.any fun r => r.2.any (· ≥ 128) then none
+  let c := avgAllelesCounts rows L
+  let cs := (charStats rows).mergeSort fun a b => decide (a.1 ≤ b.1)
+  let total := (cs.map Prod.snd).foldl (· + ·) 0
+  let a := autoAlphabet (rows.map Prod.snd)
+  some ("rc=0 out=length " ++ toString L ++ "|nseqs " ++ toString rows.length ++
+    "|avgalleles " ++ fixed 4 (Float.ofNat c.1 / Float.ofNat c.2) ++
+    "|variable sites " ++ toString (nbVariableSites rows L) ++ "|char nb freq|" ++
+    String.join (cs.map fun k => charOf k.1 ++ " " ++ toString k.2 ++ " " ++ fixed 6 (Float.ofNat k.2 / Float.ofNat total) ++ "|") ++
+    "alphabet " ++ (if a == NUCLEOTIDS then "nucleotide" else if a == AMINOACIDS then "protein" else "unknown") ++ "|")
+
 def handle : Handler := fun op args impl =>
   match op, args with
+  | "cli_lib", [stdin, "stats"] =>
+    match statsSummary (parseFasta (stdin.splitOn "|")) with
+    | some m => some ⟨m, verdictOf (impl == m) failCli⟩
+    | none => some ⟨"unmodelled", "na"⟩
   | "cli_lib", stdin :: "compute" :: "pssm" :: fl =>
     match pssmVerdict (parseFasta (stdin.splitOn "|")) fl impl with
     | some a => some a
